@@ -44,6 +44,8 @@ impl<'a> SocketWriteVectored<'a> {
             self.io_data.io_flag.store(0, Ordering::Relaxed);
 
             match self.socket.write_vectored(self.bufs) {
+                #[cfg(may_verif)]
+                ref r if crate::verif::sys(&self.io_data.io_flag, "sys.write_vectored", r) => unreachable!(),
                 Ok(n) => return Ok(n),
                 Err(e) => {
                     let raw_err = e.raw_os_error();
